@@ -7,7 +7,7 @@ pub fn def() -> PropDef {
     PropDef {
         id: "C17",
         builds: BOTH,
-        rule: "every text over {L,SP,NL,E2,W,HY,CR,TAB,CSI} up to length N x widths 0..=display width+2, MAX; non-trivial = at least one space was turned into a newline",
+        rule: "every text over {L,SP,NL,E2,W,HY,CR,TAB,CSI,a CSI containing a space} up to length N x widths 0..=display width+2, MAX; non-trivial = at least one space was turned into a newline",
         assumptions: BASE_ASSUMPTIONS,
         floor: |t| t.pick(50_000, 150_000),
         run,
@@ -16,7 +16,7 @@ pub fn def() -> PropDef {
 
 fn run(r: &mut Run) -> Result<(), MachineryError> {
     let t = r.tier;
-    let alpha = [L, SP, NL, E2, W, HY, CR, TAB, CSI];
+    let alpha = [L, SP, NL, E2, W, HY, CR, TAB, CSI, CSIS];
     let n = t.pick(5, 7);
     let space = Space { name: "C17/texts".into(), menu: menu(&alpha), max_len: n, desc: format!("texts of length <= {} x widths 0..=display width+2, MAX", n) };
     r.space(space, |seq, cx| {
